@@ -189,8 +189,11 @@ class ArrV(Value):
         raise Unsupported(f'unary {op} on an array')
 
     def py_getitem(self, interp, idx):
-        return ArrV(f_getitem(self.term, index_term(interp, idx)), None, self.dtype, None,
-                    {'getitem': (self, idx)})
+        one = idx[0] if isinstance(idx, tuple) and len(idx) == 1 else idx
+        shape, axes = None, None
+        if isinstance(one, ArrV) and isinstance(self.shape, tuple) and len(self.shape) == 1:
+            shape, axes = one.shape, one.axes        # a 1-d array indexed by an integer array takes the index's shape
+        return ArrV(f_getitem(self.term, index_term(interp, idx)), shape, self.dtype, axes, {'getitem': (self, idx)})
 
     def py_getattr(self, interp, name):
         if name == 'shape':
@@ -215,7 +218,7 @@ class ArrV(Value):
         if name == 'reshape':
             def reshape(interp, *a):
                 new = a[0] if len(a) == 1 and not B.is_intlike(a[0]) else tuple(a)
-                return ArrV(self.term, new, self.dtype, None, {'reshape_of': self})
+                return ArrV(self.term, new, self.dtype, squeezed_axes(self.shape, self.axes, new), {'reshape_of': self})
             return PyFunc(reshape, 'Array.reshape')
         if name == 'astype':
             return PyFunc(lambda interp, dt: ArrV(self.term, self.shape, dt, self.axes), 'Array.astype')
@@ -223,6 +226,32 @@ class ArrV(Value):
 
     def py_iter(self, interp, expect=None):
         raise Unsupported('iteration over an array in the point facet')
+
+
+def squeezed_axes(old_shape, axes, new_shape):
+    """axis names after a reshape that only drops axes of size 1 (else None: names are lost)"""
+    if axes is None or not isinstance(old_shape, tuple) or not isinstance(new_shape, tuple) or len(axes) != len(old_shape):
+        return None
+    out, j = [], 0
+    for d, ax in zip(old_shape, axes):
+        if j < len(new_shape) and same_token(d, new_shape[j]):
+            out.append(ax)
+            j += 1
+        elif concrete(d) == 1:
+            continue
+        else:
+            return None
+    return tuple(out) if j == len(new_shape) else None
+
+
+class ReducedV(Value):
+    """result of op.reduce() under the C01 contract: an operator denoting the same linear map as `op`"""
+
+    def __init__(self, op):
+        self.op = op
+
+    def __repr__(self):
+        return f'<reduced {self.op!r}>'
 
 
 class ShapeTok(Value):
